@@ -187,7 +187,10 @@ func (vf *VersionedFetcher) Start(ctx context.Context, prefixes ...keys.Walkable
 	//nolint:forcetypeassert
 	prefix := prefixes[0].(keys.HeadstoreDocKey)
 
-	vf.ctx = ctx
+	// The state of the requested version is rebuilt in the transient store: everything that
+	// merging a block writes (the head set in particular) must go there as well, and not into
+	// the transaction of the request.
+	vf.ctx = datastore.CtxSetTxn(ctx, vf.store)
 
 	if err := vf.seekTo(prefix.Cid); err != nil {
 		return NewErrFailedToSeek(prefix.Cid, err)
